@@ -522,6 +522,13 @@ class ODVariable:
             mask |= 1 << bit
         temp &= ~mask
         temp |= bit_value << min(bits)
+        if self.data_type in SIGNED_TYPES:
+            # The sign bit may have been changed: read the resulting bit
+            # pattern as the two's complement number it is
+            width = len(self)
+            temp &= (1 << width) - 1
+            if temp >= 1 << (width - 1):
+                temp -= 1 << width
         return temp
 
 
